@@ -12,3 +12,4 @@ import RSVerif.Properties.C03
 #print axioms RS.simd_block_kernels_agree
 #print axioms RS.simd_block_butterflies
 #print axioms RS.flat_butterflies_refine
+#print axioms RS.flat_transforms_refine
